@@ -712,6 +712,15 @@ impl Check for C17 {
                         1 => body[l - 1] = 0,
                         _ => {}
                     }
+                    // text that starts like a byte order mark is text like any other
+                    if cx.rng.chance(1, 3) {
+                        let bom: &[u8] = [&[0xefu8, 0xbb, 0xbf][..], &[0xff, 0xfe], &[0xfe, 0xff]][cx.rng.below(3) as usize];
+                        for (i, b) in bom.iter().enumerate() {
+                            if i < body.len() {
+                                body[i] = *b;
+                            }
+                        }
+                    }
                     let mut v = vec![if cx.rng.chance(1, 5) { 0x80 | l as u8 } else { l as u8 }];
                     v.extend(body);
                     v
